@@ -35,9 +35,7 @@ pub fn lib_call(
     // The reference runs on a fresh thread under a fixed environment (TZ, LANG, LC_* unset), so that
     // it is a pure function of its arguments even if a change under test makes the library read the
     // process time zone (chrono caches the zone per thread).
-    for k in ["TZ", "LANG", "LC_ALL", "LC_TIME"] {
-        std::env::remove_var(k);
-    }
+    crate::world::install_env(&BTreeMap::new());
     let h = std::thread::Builder::new()
         .name("sim-reference".into())
         .stack_size(16 << 20)
@@ -96,6 +94,18 @@ pub fn gen_env(rng: &mut Rng) -> BTreeMap<String, String> {
         if let Some(l) = rng.pick(LOCALES) {
             env.insert("LC_ALL".to_string(), l.to_string());
         }
+    }
+    // variables that tools like to honour "for reproducibility" or configuration; none may matter
+    if rng.chance(1, 8) {
+        let (k, v) = *rng.pick(&[
+            ("SOURCE_DATE_EPOCH", "0"),
+            ("SOURCE_DATE_EPOCH", "946684800"),
+            ("SOURCE_DATE_EPOCH", "4102444800"),
+            ("CHIRITORI_CURRENT", "2000-01-01T00:00:00Z"),
+            ("CHIRITORI_TARGETS", "feature1,feature2"),
+            ("FAKETIME", "2001-01-01 00:00:00"),
+        ]);
+        env.insert(k.to_string(), v.to_string());
     }
     env
 }
@@ -229,12 +239,7 @@ pub struct SessionCall {
 
 pub fn library_session(doc: &Doc, env: &BTreeMap<String, String>, calls: Vec<SessionCall>) -> Vec<Result<String, String>> {
     use chiritori::chiritori::*;
-    for k in ["TZ", "LANG", "LC_ALL", "LC_TIME"] {
-        match env.get(k) {
-            Some(v) => std::env::set_var(k, v),
-            None => std::env::remove_var(k),
-        }
-    }
+    crate::world::install_env(env);
     let (ds, de, tl, rm) = (doc.ds.clone(), doc.de.clone(), doc.tl_tag.clone(), doc.rm_tag.clone());
     let h = std::thread::Builder::new()
         .name("sim-session".into())
